@@ -284,6 +284,7 @@ func genEngAct(rng *rand.Rand, x *engExec) engAct {
 }
 
 func TestEngGen(t *testing.T) {
+	defer watchDriver("TestEngGen")()
 	w := newTrace("eng_gen.ndjson")
 	defer w.Close()
 	n, ln := envInt("VERIF_N", 300), envInt("VERIF_LEN", 40)
@@ -305,6 +306,7 @@ func TestEngGen(t *testing.T) {
 }
 
 func TestEngSched(t *testing.T) {
+	defer watchDriver("TestEngSched")()
 	var files []string
 	if r := os.Getenv("VERIF_REPLAY"); r != "" {
 		files = []string{r}
